@@ -404,6 +404,30 @@ func Main(run *evid.Run, scenarios []*Scenario, budget time.Duration) {
 		replay(run, scenarios, rf)
 		return
 	}
+	if tr := os.Getenv("VERIF_TRACE"); tr != "" {
+		// debugging aid: print the default execution of the matching scenarios and stop
+		for _, sc := range scenarios {
+			if !strings.Contains(sc.Name, tr) {
+				continue
+			}
+			x, fs := RunOnce(sc, nil)
+			fmt.Printf("=== %s: %d points, %d steps, deadlock=%v horizon=%v now=%v\n", sc.Name, len(x.Points), x.Steps, x.Deadlock, x.HorizonHit, x.Now)
+			for _, p := range x.Points {
+				fmt.Printf("  point %+v\n", p)
+			}
+			for _, l := range x.Log {
+				fmt.Println("  log", l)
+			}
+			for _, t := range x.Parked() {
+				fmt.Printf("  parked %s at %s\n", t.Name, t.Pending())
+			}
+			fmt.Printf("  findings %+v\n", fs)
+			if sc.Outcome != nil {
+				fmt.Println("  outcome", sc.Outcome(x))
+			}
+		}
+		os.Exit(0)
+	}
 	shards := runtime.NumCPU()
 	if v := os.Getenv("VERIF_SHARDS"); v != "" {
 		shards, _ = strconv.Atoi(v)
